@@ -69,6 +69,11 @@ def property_violation(mode, m, groups):
 
 
 class GroupingSuite(Suite):
+    has_py_property = True
+
+    def py_property(self, case, out):
+        return property_violation(case["mode"], case["map"], out)
+
     name = "group_proteins"
     imports = "From PGF Require Import Base.Prelude Model.ProteinGroups Model.Grouping Harness.H03."
     case_type = "(nat * pmap) * list (list str)"
